@@ -6,7 +6,21 @@ import itertools
 import random
 from typing import Iterator
 
-from . import gens, spec
+from . import codedict, gens, spec
+
+_DICT_PAYLOADS: list[str] | None = None
+
+
+def dictionary_payloads() -> list[str]:
+    """Payloads built from the string constants of the handler modules under test (vf.codedict): a deterministic list."""
+    global _DICT_PAYLOADS
+    if _DICT_PAYLOADS is None:
+        try:
+            systematic = codedict.systematic_candidates(codedict.HANDLER_MODULES, 400)
+            _DICT_PAYLOADS = systematic + codedict.payload_candidates(codedict.HANDLER_MODULES, random.Random(20261003), 400)
+        except Exception:  # noqa: BLE001 - a tree whose modules do not import is judged elsewhere
+            _DICT_PAYLOADS = []
+    return _DICT_PAYLOADS
 
 NODE_POOL = [0, 1, 2, 7, 254, 255]
 CHILD_POOL = [0, 1, 254]
@@ -53,9 +67,12 @@ class HistoryGen:
     def payload(self) -> str:
         rng = self.rng
         roll = rng.random()
+        if roll < 0.08 and dictionary_payloads():
+            return rng.choice(dictionary_payloads())
         if roll < 0.5:
             return rng.choice(["0", "1", "20.5", "on", "", "abc", "a;b", " x", "x y", "日本", "55.7;13.0;18", "a\rb",
-                               "l1\u2028l2", "t\tt", "a\x0cb"])
+                               "l1\u2028l2", "t\tt", "a\x0cb", "l1\nl2", "Temp: 21;Hum: 40\nDoor: open", "#ff8800",
+                               "1.10", "1.1", "007", "7"])
         if roll < 0.7:
             return rng.choice(gens.NUMBER_PAYLOADS[:32])
         return gens.random_payload(rng, roundtrip_safe=True)
@@ -175,6 +192,10 @@ def type_table_sweep(child_types: list[int], value_types: list[int], *, node: in
     steps: list[list] = [["rx", f"{node};255;0;0;17;2.0\n"]]
     for ct in child_types:
         steps.append(["rx", f"{node};{ct % 255};0;0;{ct};child type {ct}\n"])
+    # nothing is stored yet: a value request of any type on a child of any type is answered with nothing
+    for ct in child_types:
+        for vt in value_types:
+            steps.append(["rx", f"{node};{ct % 255};2;{(ct + vt) % 2};{vt};\n"])
     for ct in child_types:
         for vt in value_types:
             steps.append(["rx", f"{node};{ct % 255};1;0;{vt};a{vt}\n"])
@@ -258,3 +279,17 @@ def with_reply_faults(rng: random.Random, case: dict) -> dict:
         case["fail_reply_every"] = rng.choice([1, 1, 2, 3])
         case["fault_class"] = rng.choice(["TransportFailedError", "TransportError", "HarnessTransportError"])
     return case
+
+
+def dictionary_type_sweep(version: str | None, candidates: list[str], value_types: list[int], *, node: int = 1) -> list[list]:
+    """Every dictionary payload as the value of every value type: reported, then requested back (the registry must hold,
+    and the reply must carry, exactly the text that was reported)."""
+    steps: list[list] = [["rx", f"{node};255;0;0;17;2.0\n"], ["rx", f"{node};0;0;0;13;power\n"], ["rx", f"{node};1;0;0;29;hvac\n"]]
+    for index, payload in enumerate(candidates):
+        if ";" in payload:
+            continue
+        child = index % 2
+        for vt in value_types:
+            steps.append(["rx", f"{node};{child};1;0;{vt};{payload}\n"])
+            steps.append(["rx", f"{node};{child};2;0;{vt};\n"])
+    return steps
